@@ -188,12 +188,14 @@ pub fn run_case(seed: u64, k: usize, thorough: bool, only: Option<(usize, usize)
                 let replay = json!({"engine":"crashmon","property":"C08","seed":seed,"case":k,"thorough":thorough,"step":n,"kind":ki});
                 let mk = |kind: String, summary: String, detail: J| Violation {
                     signature: format!(
-                        "C08|{kind}|{xname}@{site}#{}",
+                        "C08|{kind}|{xname}@{site}#{}{}",
                         match refs.last_log_sync {
                             Some(p) if n > p => "after-commit-point",
                             Some(_) => "before-commit-point",
                             None => "no-log-sync",
-                        }
+                        },
+                        // the failing call wrote part of its buffer before it failed
+                        if *short > 0 { "/partial-write" } else { "" }
                     ),
                     summary,
                     detail,
